@@ -28,6 +28,25 @@ CHECKS = [
    'icontract evaluates the derived-quantity invariant after every public method call; assignment histories with re-assignment are mirrored into a model and every derived entry is compared after each step.'),
  C('C17', 'post-condition contract on the six real conversion methods against exact-SI formulas + linearity/elementwise probes',
    'Every conversion result is expressed in its documented unit and compared with the textbook formula from exact 2019 SI constants, its dimensionality is checked, and linear/affine and elementwise behaviour is probed over converter configurations.'),
+ C('C01', 'post-condition on the real solve() decided by an oracle independent of the cost function (user-level spec -> reference model: PRISM equation, per-pair closure with the reported residual, omega wiring); cost trace recorded as witness; closure contracts active during solves',
+   'Random systems (rank 1-3, all shipped closures/potentials/omega models mixed per pair, several scipy root finders and initial guesses) are solved; every converged solution left on the object is checked at every wavenumber and grid distance against the reference model built from the user-level specification captured before createPRISM.'),
+ C('C02', 'refinement-family monitor on the real solve+calculate pipeline against closed-form results (Wertheim-Thiele, Boltzmann factor, quadrature B2): first-order envelope, shrink-under-refinement and Richardson-limit conditions instead of absolute tolerances',
+   'PY hard spheres over the fluid range and every potential x closure in the dilute limit are solved on dr, dr/2, dr/4, dr/8 at fixed r_max; contact value, S(k), S(0), c(r), g(r) and B2 are compared with exact results.'),
+ C('C03', 'invariant at a hook: every closure.calculate call made while a monitored PRISM object evaluates its cost function is checked for c+gamma=-1 on the core set computed from the user inputs (registry closure instance -> pair); post-condition |g| <= residual/r on solved objects',
+   'Hostile trial vectors and all solver trial steps are observed on systems with at least one hard-core pair; the core condition is asserted per evaluation and per converged solution.'),
+ C('C04', 'metamorphic monitor over paired executions decided through the mapped root (cost of the reformulated system at the mapped base solution must vanish; solve from it must reproduce the mapped results)',
+   'Permutations of the type list, species splits (monatomic A/A\' and symmetric diblock with exact block omegas) and energy/kT rescaling are applied to converged base systems; g, S and pmf of the pairs are compared by type name.'),
+ C('C05', 'post-condition contracts on the seven real calculate functions (wrapped and rebound in every pyPRISM namespace) against definitions evaluated by the reference model from the user-level spec and a snapshot of the stored arrays',
+   'Hand-populated PRISM objects of rank 1-4 with arrays in either space and converged solutions are pushed through all 11 flag combinations; chi is additionally probed for linearity and weight ratios; the S=(I-Omega C)^-1 Omega identity is checked on solved objects.'),
+ C('C06', 'history + reference object: call histories over {11 calculate calls, user transforms, re-solve} on one solved object; returned values vs a fresh identically solved object, frame condition on the three stored arrays after every call, root-state check after solve; write-protected replica for the witness',
+   'Every (space state, operation) pair is reached systematically and random histories up to length 16 are run; any dependence on the history, any silent rescaling of a stored array, any space-related exception and any mismatch between stored arrays and the returned root is reported.'),
+ C('C08', 'refinement-family monitor: real Domain transforms of analytic functions vs closed-form 3-D radial transforms (absolute values) under first-order envelope, shrink and Richardson-limit conditions',
+   'Gaussian, Yukawa, exponential and sphere-indicator functions are transformed on dr, dr/2, dr/4 (, dr/8) grids at fixed r_max; forward values at fixed k, the k->0 limit and backward values at fixed r are compared with the closed forms.'),
+ C('C16', 'counters on the real PRISM.__init__/cost, structural digests of System and PRISM objects, sys.monitoring failpoints at every line of PRISM.__init__ (crash points), wiring vs reference model, edit/solve sweeps vs freshly built Systems',
+   'All single/double (thorough: triple) omissions must raise ValueError before any calculation starts; createPRISM/solve must leave the System digest unchanged even when construction is aborted at any line; later System edits must not reach the object; sweeps on one System must equal fresh Systems.'),
+ C('C18', 'ASan+UBSan build of the Cython extension (subprocess, halt_on_error) + chunk-partition invariant + float64 reference Debye sum under schedule diversity (nthreads x OpenMP team sizes, repeats, site permutations)',
+   'The extension is rebuilt from the current Debyer.pyx (numpy shim on a scratch copy); results are compared with a float64 numpy Debye sum for many chunkings and team sizes, repeated runs must be bit-identical, and the same workload runs on a sanitized build.'),
 ]
+CHECKS.sort(key=lambda c: c['id'])
 ALL = ['C%02d' % i for i in range(1, 19)]
 NOT_APPLICABLE = [{'property_id': p, 'reason': 'check not built yet (work in progress; see DESIGN.md section 8 for the order of work)'} for p in ALL if p not in [c['id'] for c in CHECKS]]
